@@ -179,7 +179,7 @@ prop('C20', opts={'abstract_fp': True},
      outside=['Alloc with Length > Capacity (make panics; outside Alloc contract)'])
 
 IFAMS = {'Signed': INTS_S, 'Unsigned': INTS_U}
-IQ = {'Signed': ['int8', 'int32', 'int64'], 'Unsigned': ['uint8', 'uint16', 'uint64']}
+IQ = {'Signed': ['int8', 'int32', 'int64', 'int'], 'Unsigned': ['uint8', 'uint16', 'uint64', 'uintptr']}
 
 
 def ipairs(sf, df, quick):
@@ -189,14 +189,14 @@ def ipairs(sf, df, quick):
 
 prop('C06',
      harnesses=[{'name': 'C06_%sAs%s' % (a, b), 'types': {'quick': ipairs(a, b, True), 'thorough': ipairs(a, b, False)}} for a in IFAMS for b in IFAMS],
-     bounds={'quick': 'every pair of source samples over the full width of the source type (2 symbolic samples; 64-bit sources included in full, not sampled), 36 element-type pairs; buffers of 1 channel x 2 frames; bit depths and scales are concrete after partial evaluation',
+     bounds={'quick': 'every pair of source samples over the full width of the source type (2 symbolic samples; 64-bit sources included in full, not sampled), 64 element-type pairs, both as two frames of a mono buffer and as one two-channel frame; buffers of 1 channel x 2 frames; bit depths and scales are concrete after partial evaluation',
              'thorough': 'same for all 121 signed/unsigned element-type pairs'},
      outside=['buffers with more frames/channels (position-wise behaviour is C05)'])
 
 prop('C07',
      harnesses=[{'name': 'C07_%sAs%s' % (a, b), 'types': {'quick': ipairs(a, b, True), 'thorough': ipairs(a, b, False)}} for a in IFAMS for b in IFAMS] +
      [{'name': 'C07_RT_%s%s' % (a, b), 'types': {'quick': ipairs(a, b, True), 'thorough': ipairs(a, b, False)}} for a in IFAMS for b in IFAMS],
-     bounds={'quick': 'every source sample over the full width (symbolic); narrowing and equal-depth pairs among 36 element-type pairs; widening pairs composed with the narrowing function that returns to the original format',
+     bounds={'quick': 'every source sample over the full width (symbolic); narrowing and equal-depth pairs among 64 element-type pairs; widening pairs composed with the narrowing function that returns to the original format',
              'thorough': 'all 121 pairs'},
      outside=['buffers with more frames/channels (position-wise behaviour is C05)'])
 
